@@ -151,16 +151,36 @@ def analyze(ctx, want):
     np_ = F.fn(r"Minimizer::calculate_new_partition$")
     ctx.analysed_fn(np_)
     ex, paths = run_fn(np_, F, LogModel())
-    okn = False
-    for p in paths:
-        c = p.calls(r"Minimizer::split_group$")
-        if c:
-            okn = "item@" in S.fstr(c[0][3][1]) and S.fstr(c[0][3][2]).lstrip("&*") == "partition" and S.fstr(c[0][3][3]).lstrip("&*") == "transitions"
-    its = [M.call_name(t) for bb, t in np_.calls(ADAPTERS)]
-    ob("C03.b", "every-group-is-split-against-the-old-partition", okn and not its, "split_group(group of the old partition, old partition, transitions); adapters %s" % its, np_.loc())
+    # new partition = the groups every old group is split into, all of them, in order: a loop that pushes/extends, or
+    # flat_map(split_group).collect()
+    bodies = [(np_, ex, paths)]
     for c in F.closures_of(np_):
-        pushes = [M.call_name(t) for bb, t in c.calls(r"Vec::<.*>::push$")]
-        ob("C03.b", "all-split-results-are-collected", len(pushes) == 1, "pushes in the collecting closure: %d" % len(pushes), c.loc())
+        ex_c, ps_c = run_fn(c, F, LogModel())
+        bodies.append((c, ex_c, ps_c))
+    okn = False
+    n_calls = 0
+    for body, ex_b, ps_b in bodies:
+        for p in ps_b:
+            for c in p.calls(r"Minimizer::split_group$"):
+                n_calls += 1
+                grp = S.fstr(c[3][1])
+                from_item = "item@" in grp or re.search(r"\barg2\b|\bgroup\b", grp) is not None
+                upn = body.upvar_names() if body.kind == "Closure" else {}
+                def nm(v):
+                    v2 = ex_b.deref_val(p, v) if v[0] == "ref" else v
+                    s_ = S.fstr(v2).lstrip("&*")
+                    m_ = re.match(r"^\(?\*?arg1\)?\.(\d+)$", S.fstr(v).lstrip("&*"))
+                    if m_ and int(m_.group(1)) in upn:       # a captured variable of the closure: its source name
+                        return upn[int(m_.group(1))]
+                    return s_
+                okn = from_item and nm(c[3][2]).endswith("partition") and nm(c[3][3]).endswith("transitions")
+    its = [M.call_name(t) for bb, t in np_.calls(ADAPTERS)]
+    ob("C03.b", "every-group-is-split-against-the-old-partition", okn and n_calls >= 1 and not its, "split_group(group of the old partition, old partition, transitions): %d call path(s); adapters %s" % (n_calls, its), np_.loc())
+    pushes = sum(len(list(c.calls(r"Vec::<.*>::(push|extend|append)$|Extend<.*>>::extend"))) for c in [np_] + list(F.closures_of(np_)))
+    flat = [M.call_name(t) for bb, t in np_.calls(r"Iterator>::flat_map::")]
+    coll = [M.call_name(t) for bb, t in np_.calls(r"Iterator>::collect::|FromIterator<.*>>::from_iter")]
+    ok_coll = pushes == 1 or (len(flat) == 1 and len(coll) == 1 and pushes == 0)
+    ob("C03.b", "all-split-results-are-collected", ok_coll, "pushes/extends: %d; flat_map: %d, collect: %d" % (pushes, len(flat), len(coll)), np_.loc())
 
     # ---- C03.c signatures are complete ------------------------------------------------------------
     bt = F.fn(r"Minimizer::build_transitions_to_partition_group$")
